@@ -7,6 +7,7 @@ CONSTANTS
   Dev_BadFramingWaits = FALSE
   Dev_SplitSendUnlocked = FALSE
   Dev_ExtractOnlyFirst = FALSE
+  Dev_CloseDropsQueued = FALSE
 INVARIANT InOrder
 INVARIANT AllAnswered
 INVARIANT NoInterleave
